@@ -299,6 +299,18 @@ def r4_placement(ctx, chk, rule="C09.4"):
     solve = ctx.func("tad.py::StochasticGame.solve")
     cfg = ctx.cfg(solve)
     sr = C02.calls_of(solve, "solve_reachability")
+    if not sr:
+        # the solver is driven from helper methods: anything that runs unconditionally in solve() before the first helper counts
+        helpers = [c for c in walk_no_nested_defs(solve.node) if isinstance(c, ast.Call) and isinstance(c.func, ast.Attribute)
+                   and isinstance(c.func.value, ast.Name) and c.func.value.id == "self" and c.func.attr not in ("check_game", "init_states")
+                   and any(g.name == "solve_reachability" for h in ctx.cg.resolve(c, solve) for g in ctx.cg.reachable([h]))]
+        if not helpers:
+            chk.undecided(rule, solve.where(), "no call of solve_reachability reachable from solve()")
+            return
+        sr = sorted(helpers, key=lambda c: (c.lineno, c.col_offset))[:1]
+        if not all(cfg.dominates(sr[0], h) for h in helpers):
+            chk.undecided(rule, solve.where(), "the solver is driven from several helper calls; placement of the validation not decided")
+            return
     for m in ("check_game", "init_states"):
         cs = C02.calls_of(solve, m)
         if len(cs) == 1 and sr and cfg.dominates(cs[0], sr[0]) and cfg.on_every_normal_path(cs[0]):
